@@ -25,7 +25,7 @@ ANGLES = {
 }
 TEMPLATE = """You are testing how well a library's guarantees are protected. The library is nomad-coe/matid (Python + a small C++ extension), checked out as a scratch git worktree at {wt} (work ONLY inside that directory and {out}; never read or modify /repo or /verif).
 
-Environment: run python as `/venv/bin/python`; to use the worktree's code set `PYTHONPATH={wt}` (this overrides the installed copy; verify with `PYTHONPATH={wt} /venv/bin/python -c "import matid; print(matid.__file__)"`). The compiled extension matid/ext*.so is already copied into the worktree; the C++ sources CANNOT be rebuilt here (no pybind11), so change Python code (or the data tables) only. There is no network. The pinned test suite is run with: `cd {wt} && PYTHONPATH={wt} /venv/bin/python -m pytest -q -p no:cacheprovider --timeout=900` (110 tests, all pass on the unchanged tree; on a busy machine it can take a few minutes).
+Environment: run python as `/venv/bin/python`; to use the worktree's code set `PYTHONPATH={wt}` (this overrides the installed copy; verify with `PYTHONPATH={wt} /venv/bin/python -c "import matid; print(matid.__file__)"`). The compiled extension matid/ext*.so is already copied into the worktree; the C++ sources CANNOT be rebuilt here (no pybind11), so change Python code (or the data tables) only. There is no network. Other agents work on this machine in sibling worktrees of the same repository: never use `pkill` / `killall`, and never use `git stash` (the stash is shared by all worktrees) - to set an edit aside use `git diff > file`, `git checkout -- .` and `git apply file`. The pinned test suite is run with: `cd {wt} && PYTHONPATH={wt} /venv/bin/python -m pytest -q -p no:cacheprovider --timeout=900` (110 tests, all pass on the unchanged tree; on a busy machine it can take a few minutes).
 
 Here is one semantic property the library is supposed to satisfy:
 
